@@ -268,7 +268,11 @@ def scalar_value(rng):
     c = rng.random()
     if c < 0.35:
         return 'boundary', rng.choice([0, 1, 2, 3, r - 1, r - 2, (r - 1) // 2, (r + 1) // 2, 2**255 % r, 2**128, 2**64, 2**64 - 1])
-    if c < 0.5:
+    if c < 0.47:
+        # scalars whose *stored* (Montgomery) form is special: raw limbs 1, 2^63, limb boundaries, R - r, ...
+        # (a shortcut that tests the raw representation instead of the value fires on exactly these)
+        return 'mont-boundary', rng.choice(BOUNDARY[r])
+    if c < 0.55:
         return 'pow2', 1 << rng.randrange(0, 255)
     if c < 0.65:
         lo = rng.randrange(0, 200)
